@@ -221,7 +221,9 @@ def save_performance_midi(
                 Message("program_change", program=int(p["program"]), channel=ch)
             )
 
-        if len(performed_part.programs) == 0:
+        if len(performed_part.programs) == 0 and (
+            len(performed_part.notes) > 0 or len(performed_part.controls) > 0
+        ):
             # Add default program (to each track/channel)
             channels_and_tracks = np.array(
                 list(
